@@ -491,7 +491,7 @@ func c05TreeGen(tier Tier) TreeGen {
 		Kinds: stackKinds,
 		Leaf:  genC05Leaf,
 		Conds: true, CondExprStack: true, NotAsCondExpr: true,
-		Caps: true, EmptyStacks: true, Ambient: true,
+		Caps: true, EmptyStacks: true, Ambient: true, WideRuns: true,
 		Options: true, // symbols, delimiters, fold ...: presentation settings must never mask a real difference
 	}
 	if tier.Thorough {
